@@ -7,7 +7,7 @@ export GOFLAGS=-mod=mod GOPROXY=off GOSUMDB=off GOTOOLCHAIN=local
 W=/tmp/confirm/$NAME; rm -rf "$W"; mkdir -p /tmp/confirm /tmp/confirm/scratch
 git -C /repo worktree add --detach "$W" HEAD >/dev/null 2>&1 || { echo "$NAME: worktree failed"; exit 9; }
 cd "$W"; mkdir -p "$DEST"; if [ "$DEMO" = ALL ]; then cp "$M"/*_test.go "$DEST/"; else cp "$M/$DEMO" "$DEST/"; fi
-run_demo() { env TMPDIR=/tmp/confirm/scratch C14_SCRATCH=/tmp/confirm/scratch C13_DEMO_DIR=/tmp/confirm/scratch "$@" timeout 900 go test -vet=off -count=1 -timeout 800s -run "$RUN" "./$DEST/" > "$W/demo.$PHASE.log" 2>&1; }
+run_demo() { if [ "$RUN" = GORUN ]; then env TMPDIR=/tmp/confirm/scratch "$@" timeout 900 go run "./$DEST" > "$W/demo.$PHASE.log" 2>&1; else env TMPDIR=/tmp/confirm/scratch C14_SCRATCH=/tmp/confirm/scratch C13_DEMO_DIR=/tmp/confirm/scratch C06_SCRATCH=/tmp/confirm/scratch DEMO_SCRATCH=/tmp/confirm/scratch "$@" timeout 1500 go test -vet=off -count=1 -timeout 1400s -run "$RUN" "./$DEST/" > "$W/demo.$PHASE.log" 2>&1; fi; }
 PHASE=clean; go build ./... > build.clean.log 2>&1; bc=$?; run_demo "$@"; dc=$?
 if ! git apply "$M/patch.diff" 2>apply.log; then echo "$NAME: PATCH-DOES-NOT-APPLY"; cat apply.log | head -3; cd /; git -C /repo worktree remove --force "$W"; exit 8; fi
 PHASE=patched; go build ./... > build.patched.log 2>&1; bp=$?
